@@ -520,11 +520,15 @@ func transportScenario(r *rec, rng *rand.Rand, idx int) {
 	defer tr.CloseIdleConnections()
 	nreq := 1 + rng.Intn(3)
 	sizes := []int{0, 1, 100, 20000, 70000, 200000}
+	// every third scenario is a fixed one: a large frame size is announced, the upload starts against a tiny window, the frame size is
+	// lowered in mid-upload and only then the windows are opened wide - what follows must respect the lowered limit
+	mfdrop := idx%3 == 0
+	if mfdrop {
+		nreq, sizes = 1, []int{200000}
+	}
 	done := make(chan error, nreq)
-	for i := 0; i < nreq; i++ {
-		size := sizes[rng.Intn(len(sizes))]
-		known := rng.Intn(2) == 0
-		go func(i, size int) {
+	launch := func(size int, known bool) {
+		go func() {
 			req, _ := http.NewRequest("POST", "http://"+ln.Addr().String()+"/t", &patternReader{n: size})
 			req.Header.Set("X-Vf-Body", strconv.Itoa(size))
 			if known {
@@ -538,8 +542,15 @@ func transportScenario(r *rec, rng *rand.Rand, idx int) {
 				resp.Body.Close()
 			}
 			done <- err
-		}(i, size)
-		time.Sleep(2 * time.Millisecond) // the requests share one connection (the second dial waits for the first)
+		}()
+	}
+	if mfdrop {
+		launch(0, true) // warm-up: the big upload starts on a connection that has seen the peer's SETTINGS
+	} else {
+		for i := 0; i < nreq; i++ {
+			launch(sizes[rng.Intn(len(sizes))], rng.Intn(2) == 0)
+			time.Sleep(2 * time.Millisecond) // the requests share one connection (the second dial waits for the first)
+		}
 	}
 	ln.(*net.TCPListener).SetDeadline(time.Now().Add(5 * time.Second))
 	conn, err := ln.Accept()
@@ -633,12 +644,45 @@ func transportScenario(r *rec, rng *rand.Rand, idx int) {
 	}
 	w0 := []uint32{0, 1, 100, 16384, 65535, 100000}[rng.Intn(6)]
 	mf0 := []uint32{16384, 32768, 65536}[rng.Intn(3)]
+	if mfdrop {
+		w0, mf0 = 10, 65536
+	}
 	if err := settings(h2raw.Setting{ID: 4, Val: w0}, h2raw.Setting{ID: 5, Val: mf0}, h2raw.Setting{ID: 3, Val: 100}); err != nil {
 		r.notes = append(r.notes, fmt.Sprintf("tsend-%d: %v", idx, err))
 		return
 	}
 	_ = c
+	responded := map[uint32]bool{}
+	finished := 0
 	steps := 6 + rng.Intn(12)
+	if mfdrop {
+		steps = 0
+		// finish the warm-up request, then start the upload proper
+		for i := 0; i < 50 && len(ids) == 0; i++ {
+			if err := barrier(); err != nil {
+				return
+			}
+			time.Sleep(2 * time.Millisecond)
+		}
+		if len(ids) == 1 {
+			r.ev(map[string]any{"op": "drained", "s": ids[0]})
+			conn.Write(h2raw.Headers(ids[0], true, h2raw.Block([]h2raw.HF{{":status", "200"}}), nil, 0))
+			responded[ids[0]] = true
+			<-done
+			finished++
+		}
+		nreq = 2
+		launch(200000, rng.Intn(2) == 0)
+		for i := 0; i < 50 && len(ids) < 2; i++ { // wait for the upload to start
+			if err := barrier(); err != nil {
+				return
+			}
+			time.Sleep(5 * time.Millisecond)
+		}
+		if err := settings(h2raw.Setting{ID: 5, Val: 16384}); err != nil {
+			return
+		}
+	}
 	for i := 0; i < steps; i++ {
 		if err := barrier(); err != nil {
 			r.notes = append(r.notes, fmt.Sprintf("tsend-%d: %v", idx, err))
@@ -691,10 +735,13 @@ func transportScenario(r *rec, rng *rand.Rand, idx int) {
 		}
 	}
 	for _, sid := range ids {
+		if responded[sid] {
+			continue
+		}
 		r.ev(map[string]any{"op": "drained", "s": sid})
 		conn.Write(h2raw.Headers(sid, true, h2raw.Block([]h2raw.HF{{":status", "200"}}), nil, 0))
 	}
-	for i := 0; i < nreq; i++ {
+	for i := finished; i < nreq; i++ {
 		select {
 		case <-done:
 		case <-time.After(5 * time.Second):
